@@ -18,7 +18,9 @@ package mapping
 import (
 	"bytes"
 	"encoding/json"
+	"errors"
 	"fmt"
+	"io"
 	"math"
 	"net/textproto"
 	"reflect"
@@ -638,6 +640,9 @@ func c08Exec(op []string) string {
 	if len(op) > 0 && op[0] == "v" {
 		return c08ExecValuer(op)
 	}
+	if len(op) > 0 && op[0] == "e" {
+		return c08ExecEntry(op)
+	}
 	if len(op) < 6 || (op[0] != "u" && op[0] != "uy" && op[0] != "ut" && op[0] != "um") {
 		return "bad-op"
 	}
@@ -843,6 +848,181 @@ func c08ScribbleScalar(e reflect.Value) bool {
 		return false
 	}
 	return true
+}
+
+// ---------------------------------------------------------------- entry points (round 5d)
+
+type c08ErrReader struct{}
+
+func (c08ErrReader) Read(p []byte) (int, error) { return 0, errors.New("c08: the reader fails") }
+
+type c08PanicReader struct{}
+
+func (c08PanicReader) Read(p []byte) (int, error) { panic("c08: the reader panics") }
+
+// c08NilTargetSafe: does the tree under check refuse an untyped nil target (fixes/C08-nil-target.patch) or panic on it
+// (`reflect.TypeOf(nil).Kind()` in Unmarshaler.unmarshal)?  The class tgt=nil is generated only on a tree that refuses it;
+// the defect of the unpatched tree is kept as Props.pinned_nil_target_panics + replays/C08-nil-target.json.
+func c08NilTargetSafe() (safe bool) {
+	defer func() {
+		if recover() != nil {
+			safe = false
+		}
+	}()
+	_ = UnmarshalJsonMap(map[string]any{}, nil)
+	return true
+}
+
+// e fn=<bytes|reader|map|key|yaml|toml> tgt=<ptr|ptrptr|nil|val|nilptr|ptrint> src=<doc|empty|malformed|readerr|readpanic> T … I …
+func c08ExecEntry(op []string) string {
+	if len(op) < 6 {
+		return "bad-op"
+	}
+	cfg := verifh.ParseCfg(strings.Join(op[1:4], " "))
+	fn, tg, sr := cfg.Str("fn", "bytes"), cfg.Str("tgt", "ptr"), cfg.Str("src", "doc")
+	key := "json"
+	if fn == "key" {
+		key = "key"
+	}
+	p := &c08Parser{toks: op[4:]}
+	if p.next() != "T" {
+		return "bad-op"
+	}
+	ty := p.parseType(key)
+	if ty.Kind() != reflect.Struct || p.next() != "I" {
+		return "bad-op"
+	}
+	var sb strings.Builder
+	p.parseInput(&sb)
+	if p.pos != len(p.toks) {
+		return "bad-op"
+	}
+	text := sb.String()
+	var target any
+	var result func() reflect.Value
+	switch tg {
+	case "ptr":
+		v := reflect.New(ty)
+		target, result = v.Interface(), func() reflect.Value { return v.Elem() }
+	case "ptrptr":
+		v := reflect.New(reflect.PtrTo(ty))
+		target, result = v.Interface(), func() reflect.Value { return v.Elem().Elem() }
+	case "nil":
+		target = nil
+	case "val":
+		target = reflect.New(ty).Elem().Interface()
+	case "nilptr":
+		target = reflect.Zero(reflect.PtrTo(ty)).Interface()
+	case "ptrint":
+		i := 0
+		target = &i
+	default:
+		return "bad-op"
+	}
+	var rd io.Reader
+	switch sr {
+	case "doc":
+		rd = strings.NewReader(text)
+	case "empty":
+		text = ""
+		rd = strings.NewReader("")
+	case "malformed":
+		text = text[:len(text)-1]
+		rd = strings.NewReader(text)
+	case "readerr":
+		rd = io.MultiReader(strings.NewReader(text[:len(text)/2]), c08ErrReader{})
+	case "readpanic":
+		rd = c08PanicReader{}
+	default:
+		return "bad-op"
+	}
+	var err error
+	switch fn {
+	case "bytes":
+		if sr == "readerr" || sr == "readpanic" {
+			return "bad-op"
+		}
+		err = UnmarshalJsonBytes([]byte(text), target)
+	case "reader":
+		err = UnmarshalJsonReader(rd, target)
+	case "map", "key":
+		if sr != "doc" {
+			return "bad-op"
+		}
+		var m map[string]any
+		if e := jsonx.UnmarshalFromString(text, &m); e != nil {
+			return "bad-op"
+		}
+		if fn == "map" {
+			err = UnmarshalJsonMap(m, target)
+		} else {
+			err = UnmarshalKey(m, target)
+		}
+	case "yaml", "toml":
+		// the YAML / TOML entry points with a fixed one-line document: only the target and the reader vary
+		if tg == "ptr" || tg == "ptrptr" {
+			if sr != "readerr" && sr != "readpanic" {
+				return "bad-op"
+			}
+		}
+		doc := map[string]string{"yaml": "zz: 1\n", "toml": "zz = 1\n"}[fn]
+		switch {
+		case sr == "doc" && fn == "yaml":
+			err = UnmarshalYamlBytes([]byte(doc), target)
+		case sr == "doc":
+			err = UnmarshalTomlBytes([]byte(doc), target)
+		case sr != "readerr" && sr != "readpanic":
+			return "bad-op"
+		case fn == "yaml":
+			err = UnmarshalYamlReader(rd, target)
+		default:
+			err = UnmarshalTomlReader(rd, target)
+		}
+	default:
+		return "bad-op"
+	}
+	if err != nil {
+		return "err " + c08Class(err)
+	}
+	if result == nil {
+		return "ok { }"
+	}
+	var out strings.Builder
+	out.WriteString("ok")
+	c08Dump(&out, result())
+	c08Scribble(result(), 0)
+	return out.String()
+}
+
+func c08GenEntryOps(r *verifh.Rng) []string {
+	var ops []string
+	nilOK := c08NilTargetSafe()
+	t := c08GenType(r, 1, false)
+	var tb strings.Builder
+	t.tokens(&tb)
+	for k := verifh.Scale(14, 30); k > 0; k-- {
+		var ib strings.Builder
+		c08GenInput(r, t, &ib, false, false, r.Pick(50, 90, 100))
+		in := strings.TrimSpace(ib.String())
+		fn := r.PickS("bytes", "bytes", "reader", "reader", "map", "key", "yaml", "toml")
+		tg := r.PickS("ptr", "ptr", "ptrptr", "val", "nilptr", "ptrint", "nil")
+		if tg == "nil" && !nilOK {
+			tg = "nilptr"
+		}
+		sr := "doc"
+		switch fn {
+		case "bytes":
+			sr = r.PickS("doc", "doc", "empty", "malformed")
+		case "reader":
+			sr = r.PickS("doc", "doc", "empty", "malformed", "readerr", "readpanic")
+		case "yaml", "toml":
+			if tg == "ptr" || tg == "ptrptr" || r.Chance(1, 3) {
+				sr = r.PickS("readerr", "readpanic")
+			}
+		}
+		ops = append(ops, "e fn="+fn+" tgt="+tg+" src="+sr+" T"+tb.String()+" I "+in)
+	}
+	return ops
 }
 
 // ---------------------------------------------------------------- generator
@@ -1628,6 +1808,7 @@ func c08Gen(r *verifh.Rng) []verifh.Section {
 		for k := verifh.Scale(6, 12); k > 0; k-- {
 			ops = append(ops, c08GenValuerOp(r))
 		}
+		ops = append(ops, c08GenEntryOps(r)...)
 		secs = append(secs, verifh.Section{Cfg: fmt.Sprintf("i=%d", i), Ops: ops})
 	}
 	return secs
